@@ -17,6 +17,61 @@ type Rendering struct {
 	Data      map[string]any `json:"data,omitempty"`
 	All       bool           `json:"all,omitempty"` // all: true instead of listing the interfaces
 	Boiler    bool           `json:"boiler,omitempty"`
+	// IfaceData holds template-data written in the `config` of single interfaces, keyed by
+	// "<package dir>/<interface>" (only used when the interfaces are listed).
+	IfaceData map[string]map[string]any `json:"iface_data,omitempty"`
+}
+
+// IfaceKey is the key of an interface in Rendering.IfaceData.
+func IfaceKey(p *Pkg, iface string) string { return p.Dir + "/" + iface }
+
+// EffectiveData returns the template-data in effect for one mock (interface level over root level).
+func (r Rendering) EffectiveData(p *Pkg, iface string) map[string]any {
+	out := map[string]any{}
+	for k, v := range r.Data {
+		out[k] = v
+	}
+	if !r.All {
+		for k, v := range r.IfaceData[IfaceKey(p, iface)] {
+			out[k] = v
+		}
+	}
+	return out
+}
+
+// GenIfaceData draws interface-level overrides of the per-mock template-data options of the
+// built-in templates (skip-ensure, stub-impl for matryer; unroll-variadic for testify).
+func (r *Rendering) GenIfaceData(t *rapid.T, m *Module) {
+	if r.All || rapid.IntRange(0, 2).Draw(t, "ifacedata") != 0 {
+		return
+	}
+	keys := []string{"unroll-variadic"}
+	if r.Template == "matryer" {
+		keys = []string{"skip-ensure", "stub-impl"}
+	}
+	for pi := range m.Pkgs {
+		p := &m.Pkgs[pi]
+		for _, it := range p.Ifaces {
+			for _, k := range keys {
+				switch rapid.IntRange(0, 3).Draw(t, "ifacedata:"+k) {
+				case 1:
+					r.setIfaceData(IfaceKey(p, it.Name), k, true)
+				case 2:
+					r.setIfaceData(IfaceKey(p, it.Name), k, false)
+				}
+			}
+		}
+	}
+}
+
+func (r *Rendering) setIfaceData(key, k string, v any) {
+	if r.IfaceData == nil {
+		r.IfaceData = map[string]map[string]any{}
+	}
+	if r.IfaceData[key] == nil {
+		r.IfaceData[key] = map[string]any{}
+	}
+	r.IfaceData[key][k] = v
 }
 
 var Templates = []string{"testify", "matryer"}
@@ -123,7 +178,11 @@ func (r Rendering) ConfigYAML(m *Module, extra map[string]any) string {
 		} else {
 			ifs := map[string]any{}
 			for _, it := range p.Ifaces {
-				ifs[it.Name] = nil
+				if d := r.IfaceData[IfaceKey(p, it.Name)]; len(d) > 0 {
+					ifs[it.Name] = map[string]any{"config": map[string]any{"template-data": d}}
+				} else {
+					ifs[it.Name] = nil
+				}
 			}
 			entry["interfaces"] = ifs
 		}
